@@ -79,7 +79,7 @@ STR_COMMON = ["", "a", "hello world", 'q"uote', "back\\slash", "new\nline", "tab
               'She wrote:\n"see you"', 'x\n"', '"""\n', '\n""', "\n\\", "\t",
               # strings that look like values of another type, and the edges of the string domain
               "2020-01-01T00:00:00", "_:b1", "http://x.org/y", "1e3", "-0", "+1", "007", "NaN", "INF", "false", "e\u0301", "\u05e9\u05dc\u05d5\u05dd",
-              "\u200f\u202eabc", "x" * 5000, "\u2028sep", "   ", "\n"]
+              "\u200f\u202eabc", "x" * 5000, "\u2028sep", "   ", "\n", "AT&T; Mobility", "&alpha; &#0; &#xD800;", "\u212b\u2126", "mid\ufeffdle"]
 STR_NON_XML = ["a\rb", "c\r\nd", "ctl\x01", "del\x7f", "nul\x00x", "￾"]
 
 DEFAULT_PROFILE = dict(
@@ -92,7 +92,7 @@ DEFAULT_PROFILE = dict(
     custom_datatypes=True, p_record_ref=0.2, p_conv=0.15, p_multi_value=0.25, p_prov_class_type=0.3,
     mandatory_args=False, bare_relations=False, uris=("http://x.org/y", "urn:a:b", "http://x.org/a b", "mailto:a@b",
                                                        "http://ex.org/e1", "x", "http://x.org/é", "prov:looks-like-a-name", "ex:also"),
-    tz_minutes=(None, None, 0, 60, -300, 330, 765, -720, 840, 1, -1, 839), empty_prefix_qn=0.08, p_big=0.015,
+    tz_minutes=(None, None, 0, 60, -300, 330, 765, -720, 840, 1, -1, 839, -210, -570), empty_prefix_qn=0.08, p_big=0.01, p_storm=0.03,
 )
 
 PROFILES = {
@@ -280,7 +280,7 @@ class Gen:
                 op += [nss, self.r.choice(["dict", "list"])]
             self.pending_attach.append((t, None if how == "ctor_id" else self.rand_name("D", locals_=["b%d" % i, "b"])))
         else:
-            op = ["bundle", t, self.rand_name("D", locals_=["b%d" % i, "bundle/%d" % i, "b"])]
+            op = ["bundle", t, self.rand_name("D", locals_=["b%d" % i, "bundle/%d" % i, "b", "run-1.0", "run-1_0", "run-1-0"])]
         self.targets.append(t)
         return op
 
@@ -463,20 +463,30 @@ class Gen:
                 for _ in range(r.randint(0, 2)):
                     ops.append(self.op_ns(t))
         n = steps if steps is not None else r.randint(1, self.p["max_steps"])
+        if steps is None and r.random() < self.p.get("p_storm", 0.03):
+            # scale in one dimension: a clash storm on one prefix in one scope (the 10th, 11th ... renaming), each of the namespaces
+            # then used by a record (names given as QualifiedName objects, so every one is re-homed)
+            pfx = r.choice([x for x in self.p["prefixes"] if x not in ("prov", "xsd")])
+            t = r.choice(self.targets)
+            k = r.randint(11, 15)
+            for i in range(k):
+                ops.append(["ns", t, pfx, "http://scale.example/%s/%d/" % (pfx, i)])
+            for i in range(k):
+                if r.random() < 0.6:
+                    name = {"form": "qn", "prefix": pfx, "ns": "http://scale.example/%s/%d/" % (pfx, i), "local": r.choice(["e1", "s%d" % i])}
+                    label = "R%d" % self.nrec
+                    self.nrec += 1
+                    ops.append(["rec", t, "Entity", name, {}, [], "new_record", label])
+                    self.rec_labels.append((label, "Entity", t))
+                    self.used_ids.append(name)
         if steps is None and r.random() < self.p.get("p_big", 0.0):
-            # scale: a clash storm on one prefix (the 10th and later renamings), more than nine bundles, more than a hundred records
-            pfx = r.choice(self.p["prefixes"])
-            for i in range(r.randint(11, 14)):
-                t = r.choice(self.targets)
-                u = "http://scale.example/%s/%d/" % (pfx, i)
-                ops.append(["ns", t, pfx, u])
-                self._note_ns(t, pfx, u)
+            # scale in the other dimensions: more than nine bundles, hundreds of records
             saved = self.p["max_bundles"]
             if saved:
                 self.p = dict(self.p, max_bundles=12)
                 while len(self.targets) - 1 < 11:
                     ops.append(self.op_bundle())
-            n = r.randint(110, 160)
+            n = r.choice([120, 150, 320])
         for _ in range(n):
             ops.extend(self.step())
         while self.pending_attach:
